@@ -281,8 +281,10 @@ def judge(prop, case, acc):
         if edited:
             # between the two runs the planner edits the calendars of the resources (a holiday, shorter days): the first run
             # sees generous calendars on the very same resource objects, the judged run the calendars of the case
+            sparse = case['tasks'] and case['tasks'][0]['id'] % 2 == 0
             for p_ in b.probes:
-                p_.calendar = calast.build(['weekly', {'days': [0, 1, 2, 3, 4, 5, 6], 'units': 24}])
+                # generous first (capacity is taken away afterwards) or sparse first (capacity is added afterwards)
+                p_.calendar = calast.build(['weekly', {'days': [0], 'units': 4}] if sparse else ['weekly', {'days': [0, 1, 2, 3, 4, 5, 6], 'units': 24}])
             acc.count('warm_runs_before_calendar_edit')
         schd, _r0, o0, _e0 = run_calc(case, b)
         if edited:
@@ -290,7 +292,7 @@ def judge(prop, case, acc):
                 if p_.ast[0] == 'direct' and len(p_.ast) == 2 and p_.ast[1]:
                     # a dated calendar is edited in place through its public set_units (same calendar object)
                     from pjplan import DirectCalendar
-                    c_ = DirectCalendar({d_: 24 for d_, _u in p_.ast[1]})
+                    c_ = DirectCalendar({d_: (0 if sparse else 24) for d_, _u in p_.ast[1]})
                     p_.calendar = c_
                     run_calc(case, b, schd)
                     c_.set_units({d_: u_ for d_, u_ in p_.ast[1]})
